@@ -1104,6 +1104,13 @@ namespace Pistache::Http
         allSteps[2] = std::make_unique<BodyStep>(&response);
     }
 
+    void Private::ParserImpl<Http::Response>::reset()
+    {
+        ParserBase::reset();
+
+        response = Response();
+    }
+
     void Handler::onInput(const char* buffer, size_t len,
                           const std::shared_ptr<Tcp::Peer>& peer)
     {
